@@ -482,7 +482,12 @@ def template_programs():
         Print(List(V("y"), setv("y", I(7), V("y")), V("y"))), Let("o", Obj(a=V("y"), b=setv("y", I(8), V("y")), c=V("y"))), Print(Mem(V("o"), "a"), Mem(V("o"), "b"), Mem(V("o"), "c"))]))})
     add("eval_order_compound_assignment", main(
         Let("x", I(1)), Expr(Asg(V("x"), setv("x", I(100), I(1)), "+=")), Print(V("x")),
-        Let("l", List(I(1), I(2))), Print(Idx(V("l"), setv("l", List(I(9), I(8)), I(0))), V("l"))))
+        Let("l", List(I(1), I(2))), Print(Idx(V("l"), setv("l", List(I(9), I(8)), I(0))), V("l")),
+        # the right side writes the very place which is assigned to: element, field, element of a field, with every operator class
+        Let("xs", List(I(1), I(2))), Expr(Asg(Idx(V("xs"), I(0)), Block([Expr(Asg(Idx(V("xs"), I(0)), I(10)))], I(1)), "+=")), Print(V("xs")),
+        Let("ob", Obj(a=I(1), l=List(I(5)))), Expr(Asg(Mem(V("ob"), "a"), Block([Expr(Asg(Mem(V("ob"), "a"), I(10)))], I(3)), "*=")), Print(Mem(V("ob"), "a")),
+        Expr(Asg(Idx(Mem(V("ob"), "l"), I(0)), Block([Expr(Asg(Idx(Mem(V("ob"), "l"), I(0)), I(100)))], I(2)), "-=")), Print(Mem(V("ob"), "l")),
+        Expr(Asg(Idx(V("xs"), I(1)), Block([Expr(Asg(Idx(V("xs"), I(1)), I(7), "+="))], I(1)), "+=")), Print(V("xs"))))
     add("eval_order_elements", {"two": two, "main": Fn([], Block([
         Let("l", List(I(1), I(2))), Print(Call("two", Idx(V("l"), I(0)), Block([Expr(Asg(Idx(V("l"), I(0)), I(7)))], I(2))), V("l")),
         Print(Bin("+", Idx(V("l"), I(1)), Block([Expr(Asg(Idx(V("l"), I(1)), I(30)))], I(1))), V("l")),
